@@ -23,3 +23,9 @@ def run(ctx):
     S.r21_typestate(ctx, sc)
     # resuming after a pause executes the remaining events only if the wake-up of the resumed run is not lost (shared rule with C04)
     S.r44_wait_clear(ctx, sc)
+    # "every other event is still executed, in order", also for events cancelled and scheduled while paused: the event list hands out the
+    # pending minimum after every removal (heap discipline and observers: shared rules with C01)
+    from . import c01
+    ctx.uses('eventlist')
+    for cname_ in ctx.prog.subclasses('EventListInterface'):
+        c01.check_eventlist(ctx, cname_)
